@@ -49,6 +49,20 @@ std::string outcome_class(const Registry& r, int m, const Outcome& out);
 bool has_mi(const Registry& r);
 int count_incomparable(const Registry& r, const Oracle& o);
 
+// the complete observable dispatch behaviour of the registry as materialised in
+// c.w: one row per (method, tuple) and one per definition's next.  Tuples and
+// routes are derived from `seed` only, so that two materialisations of the same
+// abstract registry produce comparable tables.
+struct Behaviour {
+    std::vector<std::string> rows;
+    long calls = 0;
+};
+void behaviour(CaseCtx& c, uint64_t seed, int max_tuples, int alias_round, bool with_next, Behaviour& out);
+// the same table computed from the oracle alone
+void oracle_behaviour(const Registry& r, const Oracle& o, uint64_t seed, int max_tuples, bool with_next, Behaviour& out);
+// first differing row, or -1
+long first_difference(const Behaviour& a, const Behaviour& b);
+
 std::vector<IWorld*> suitable_worlds(const Run& run, bool want_deferred, bool want_projection);
 int pick_flavour(Rng& rng, const Caps& caps, bool need_typeid = false);
 
